@@ -29,6 +29,7 @@ type Env struct {
 	con     *Contract
 	calleeFn   *ssa.Function
 	finalCache map[string]envVar
+	cst        *State // state whose local cells are current (differs from st inside old())
 }
 
 var nilType = types.Typ[types.UntypedNil]
@@ -147,7 +148,10 @@ func (fc *FnCtx) calleeEnv(con *Contract, fn *ssa.Function, sig *types.Signature
 		env.pkg = fn.Pkg.Pkg
 		for i, p := range fn.Params {
 			if i < len(args) {
-				env.vars[p.Name()] = envVar{args[i], p.Type()}
+				env.vars[fmt.Sprintf("arg%d", i)] = envVar{args[i], p.Type()}
+				if p.Name() != "_" && p.Name() != "" {
+					env.vars[p.Name()] = envVar{args[i], p.Type()}
+				}
 			}
 		}
 		for i, fv := range fn.FreeVars {
@@ -353,7 +357,11 @@ func (fc *FnCtx) transIdent(env *Env, name string) (Val, types.Type) {
 		var ord int
 		if n, err := fmt.Sscanf(name, "idx%d", &ord); n == 1 && err == nil && fmt.Sprintf("idx%d", ord) == name {
 			if a := fc.rangeIndexCell(ord); a != nil {
-				if v, ok := env.st.cells[a]; ok {
+				cs := env.cst
+				if cs == nil {
+					cs = env.st
+				}
+				if v, ok := cs.cells[a]; ok {
 					return v, types.Typ[types.Int]
 				}
 			}
@@ -727,8 +735,8 @@ func (fc *FnCtx) transCall(env *Env, e *CCall) (Val, types.Type) {
 			if env.oldVars != nil {
 				env2.vars = env.oldVars
 				if env.cells != nil {
-					// in loop envs old(x) is the parameter's entry value
-					env2.cells = nil
+					// in loop/guard envs old(E) evaluates E in the entry heap with parameters at
+					// their entry values; other locals (and idxN/rangedN) keep their current values
 					env2.vars = map[string]envVar{}
 					for k, v := range env.oldVars {
 						env2.vars[k] = v
@@ -739,6 +747,9 @@ func (fc *FnCtx) transCall(env *Env, e *CCall) (Val, types.Type) {
 						} else if _, isBound := env.oldVars[k]; !isBound {
 							env2.vars[k] = v // quantifier-bound variables
 						}
+					}
+					if env2.cst == nil {
+						env2.cst = env.st
 					}
 				} else {
 					env2.vars = map[string]envVar{}
